@@ -269,29 +269,44 @@ where
             .delivery_tag
             .clone()
             .ok_or(LinkStateError::IllegalState)?;
-        let settled = self
-            .send_transfer_without_modifying_unsettled_map(writer, transfer, payload)
-            .await?;
-        match settled {
-            true => Ok(Settlement::Settled(delivery_tag)),
-            // If not set on the first (or only) transfer for a (multi-transfer)
-            // delivery, then the settled flag MUST be interpreted as being false.
-            false => {
-                let (tx, rx) = oneshot::channel();
-                let unsettled = UnsettledMessage::new(payload_copy, None, message_format, tx);
-                {
-                    let mut guard = self.unsettled.write();
-                    guard
-                        .get_or_insert(OrderedMap::new())
-                        .insert(delivery_tag.clone(), unsettled);
-                }
-
-                Ok(Settlement::Unsettled {
-                    delivery_tag,
-                    outcome: rx,
-                })
-            }
+        // If not set on the first (or only) transfer for a (multi-transfer)
+        // delivery, then the settled flag MUST be interpreted as being false.
+        let settled = transfer.settled.unwrap_or(match self.snd_settle_mode {
+            SenderSettleMode::Settled => true,
+            SenderSettleMode::Unsettled => false,
+            SenderSettleMode::Mixed => false,
+        });
+        if settled {
+            self.send_transfer_without_modifying_unsettled_map(writer, transfer, payload)
+                .await?;
+            return Ok(Settlement::Settled(delivery_tag));
         }
+
+        // The delivery is entered in the unsettled map before its transfer is handed to
+        // the session: the peer's disposition may be back before this task runs again,
+        // and an outcome that finds no entry is lost
+        let (tx, rx) = oneshot::channel();
+        let unsettled = UnsettledMessage::new(payload_copy, None, message_format, tx);
+        {
+            let mut guard = self.unsettled.write();
+            guard
+                .get_or_insert(OrderedMap::new())
+                .insert(delivery_tag.clone(), unsettled);
+        }
+        // ... and taken out again if the transfer is not handed over (error or cancellation)
+        let mut entry = UnsettledEntryGuard {
+            unsettled: &self.unsettled,
+            delivery_tag: Some(&delivery_tag),
+        };
+        self.send_transfer_without_modifying_unsettled_map(writer, transfer, payload)
+            .await?;
+        entry.delivery_tag = None;
+        drop(entry);
+
+        Ok(Settlement::Unsettled {
+            delivery_tag,
+            outcome: rx,
+        })
     }
 
     async fn dispose(
@@ -904,5 +919,23 @@ where
             Some(reason) => SenderAttachError::SessionStopped(reason.clone()),
             None => SenderAttachError::IllegalState, // defensive: no stop reason recorded; failure is link-local
         },
+    }
+}
+
+
+/// Removes a delivery from the unsettled map unless its transfer was handed to the session
+struct UnsettledEntryGuard<'a> {
+    unsettled: &'a ArcSenderUnsettledMap,
+    delivery_tag: Option<&'a DeliveryTag>,
+}
+
+impl Drop for UnsettledEntryGuard<'_> {
+    fn drop(&mut self) {
+        if let Some(delivery_tag) = self.delivery_tag {
+            let mut guard = self.unsettled.write();
+            if let Some(map) = guard.as_mut() {
+                map.swap_remove(delivery_tag);
+            }
+        }
     }
 }
